@@ -21,7 +21,7 @@
 From Coq Require Import List ZArith QArith Qround Qabs Bool Arith Lia.
 From LMBase Require Import Res ListX IEEE.
 From LMDist Require Import GenDist DistSkel DistModel DistInst DistProofs DistConv DistTail DistBuild DistThms
-  DistDyadic DistCheckProofs DistStretch DistIEEE DistTotal DistNaive DistWords DistRound DistGridModel DistGrid.
+  DistDyadic DistCheckProofs DistStretch DistIEEE DistTotal DistNaive DistWords DistRound DistGridModel DistGrid DistBest.
 Import ListNotations.
 Local Open Scope Q_scope.
 
@@ -142,6 +142,59 @@ Theorem C11_score_pvalue_roundtrip : forall m bg d p s q,
   0 < p -> p < 1 ->
   d_score QOps d p = Ok s -> d_pvalue QOps d s = Ok q -> q <= p.
 Proof. exact score_pvalue_roundtrip_Q. Qed.
+
+(* ---------- the top of the table: max_score, min_pvalue, the best words ---------- *)
+
+(* max_score (the field behind min_pvalue() and score(p <= 0)) is the largest discretised score of
+   positive probability: no word of positive weight scores above it, and when the words carry any
+   weight at all some word of positive weight reaches it exactly.  (A convolution that drops small
+   partial densities, or a wrong sentinel in the survival loop, breaks this.) *)
+Theorem C11_max_score_is_best_word : forall m bg d,
+  bg_nonneg bg -> Qsum bg <= 1 -> build QOps m bg = Ok d ->
+  (0 <= d_max d <= Z.of_nat (length m) * 1000)%Z /\
+  (forall w k, In w (all_words (length bg) (length (d_data d))) -> word_D (d_data d) w = Some k ->
+     (d_max d < k)%Z -> word_weight bg w == 0) /\
+  (0 < tailD_words (d_data d) bg 0 ->
+     exists w, In w (all_words (length bg) (length (d_data d))) /\ word_D (d_data d) w = Some (d_max d) /\
+               0 < word_weight bg w).
+Proof.
+  intros m bg d Hbg Hm H. split; [exact (proj1 (max_score_Q m bg d Hbg Hm H))|].
+  exact (max_score_words_Q m bg d Hbg Hm H).
+Qed.
+
+(* min_pvalue() never panics on a built distribution and is the probability of the best words in
+   exact arithmetic: the total weight of the words whose discretised score reaches max_score
+   (= P(D = max_score): nothing lies above), positive whenever the words carry weight *)
+Theorem C11_min_pvalue_is_best : forall m bg d,
+  bg_nonneg bg -> Qsum bg <= 1 -> build QOps m bg = Ok d ->
+  exists q, d_min_pvalue d = Ok q /\
+    q == tailD_words (d_data d) bg (d_max d) /\
+    tailD_words (d_data d) bg (d_max d + 1) == 0 /\
+    q == pmfD (d_data d) bg (d_max d) /\
+    (0 < tailD_words (d_data d) bg 0 -> 0 < q).
+Proof. exact min_pvalue_is_best_Q. Qed.
+
+(* p-values at the top: a score whose scaled value r = scale(s) lies above max_score has p-value 0;
+   up to max_score the p-value is at least min_pvalue (so positive: the far upper tail is not cut
+   off); at r = max_score (the best attainable discretised score) it is min_pvalue itself *)
+Theorem C11_best_score_tail : forall m bg d s r p q,
+  bg_nonneg bg -> Qsum bg <= 1 -> build QOps m bg = Ok d ->
+  d_min_pvalue d = Ok q -> d_scale QOps d s = Ok r -> d_pvalue QOps d s = Ok p ->
+  ((d_max d < r)%Z -> p == 0) /\ ((r <= d_max d)%Z -> q <= p) /\ (r = d_max d -> (d_min d <= r)%Z -> p == q).
+Proof. exact best_score_tail_Q. Qed.
+
+(* score(p) for 0 < p < min_pvalue, as coded: the binary search ends at an index x above max_score,
+   the returned score unscale(x) lies strictly above unscale(max_score), and its p-value is 0 *)
+Theorem C11_score_below_min_pvalue : forall m bg d p q s r,
+  bg_nonneg bg -> Qsum bg <= 1 -> build QOps m bg = Ok d ->
+  (Z.of_nat (length m) * 1000 < i32_max)%Z ->
+  d_min_pvalue d = Ok q -> 0 < p -> p < q ->
+  d_score QOps d p = Ok s -> d_pvalue QOps d s = Ok r ->
+  r == 0 /\
+  exists x : nat, (d_max d < Z.of_nat x <= Z.of_nat (length m) * 1000 + 1)%Z /\
+    s == inject_Z (Z.of_nat x) / d_scale_f d + inject_Z (d_rows d) * d_offset d /\
+    inject_Z (d_max d) / d_scale_f d + inject_Z (d_rows d) * d_offset d < s.
+Proof. exact score_below_min_pvalue_Q. Qed.
 
 (* The specification itself: the recursive tail used in the theorems above is literally
    the probability that a word of independent background-distributed symbols scores at
@@ -456,3 +509,17 @@ Example ex_grid :
   length tab = 31%nat /\ tail_tabZ tab 0 0 = (2 ^ 30)%Z /\ tail_tabZ tab 30 0 = 1%Z /\
   tail_dy tab 0 1 30 (30 # 1) == 1 # (2 ^ 30).
 Proof. cbv zeta. conj_all; vm_compute; reflexivity. Qed.
+
+(* max_score / min_pvalue on the example (cells 0,1,2,3, uniform): max_score = 999 = D(word "3"),
+   min_pvalue = 1/4 = its weight; score(1/8) = unscale(1000) > unscale(999), p-value 0 *)
+Example ex_best :
+  match build QOps ex_m ex_bg with
+  | Ok d => d_max d = 999%Z /\
+            match d_min_pvalue d with Ok q => q == 1 # 4 | _ => False end /\
+            word_D (d_data d) [3%nat] = Some 999%Z /\ word_weight ex_bg [3%nat] == 1 # 4 /\
+            match d_score QOps d (1 # 8) with
+            | Ok s => s == 1000 # 333 /\ match d_pvalue QOps d s with Ok r => r == 0 | _ => False end
+            | _ => False end
+  | _ => False
+  end.
+Proof. vm_compute. conj_all; reflexivity. Qed.
